@@ -1,11 +1,14 @@
 #!/bin/bash
-# Builds the whole framework offline from files on disk: Lean models/proofs/drivers, Rust harness.
-set -e
+# Builds the framework offline from files on disk: Lean models/proofs/drivers and the Rust harness of every
+# registered (verified) property must build; anything else (work in progress) is built best-effort.
 cd "$(dirname "$0")"
 export CARGO_NET_OFFLINE=true
 mkdir -p work/locks evidence replays
-exes=""
-for f in lean/Drv/C[0-9][0-9].lean; do n=$(basename $f .lean); exes="$exes drv_$(echo $n | tr 'C' 'c')"; done
-( cd lean && lake build VrpModel VrpProofs $exes )
-( cd harness && { [ -f Cargo.lock ] || cp /repo/Cargo.lock . ; } ; cargo build --offline --bins 2>&1 | tail -3 )
+python3 lib/setup_targets.py > work/setup_targets.txt || exit 1
+lean_targets=$(sed -n 1p work/setup_targets.txt)
+bins=$(sed -n 2p work/setup_targets.txt)
+( cd lean && lake build $lean_targets ) || { echo "setup: lean build failed"; exit 1; }
+( cd harness && { [ -f Cargo.lock ] || cp /repo/Cargo.lock . ; } ; cargo build --offline $bins 2>&1 | tail -3 ; exit ${PIPESTATUS[0]} ) || { echo "setup: cargo build failed"; exit 1; }
+# best effort for the rest
+( cd lean && lake build VrpModel VrpProofs > /dev/null 2>&1 ) || echo "setup: (note) some unregistered Lean modules do not build yet"
 echo "setup done"
